@@ -448,6 +448,8 @@ fn main() {
     if thorough {
         ctx.exhaustive.insert("n<=2: every pair of functions with every cost triple; n=3: every single function with every cost triple".into(), true);
     }
+    // hidden-state monitor: sampled events of all shards again, mixed, on one thread (ctx::run_mix)
+    run_mix(&mut ctx, seed, |c, e| exec(c, e));
     let mut required: Vec<String> = Vec::new();
     for op in ops {
         for n in 0..=2 {
